@@ -11,7 +11,6 @@ package exporterhelper
 import (
 	"context"
 	"math"
-	"strings"
 	"testing"
 	"testing/synctest"
 	"time"
@@ -45,7 +44,6 @@ func c19Metric(tel *componenttest.Telemetry, name string) (int64, bool) {
 
 // c19ExpectedSize: what the queue holds (queued + being processed) according to the ledger of the sends, when it can be told.
 func c19ExpectedSize(cs *c03Case, evs []c03Ev) (int64, bool) {
-	key := func(ids []int) string { return c03Join(ids) }
 	started := map[int][]int{}
 	returned := map[int]bool{}
 	rejected := map[int]bool{}
@@ -54,8 +52,9 @@ func c19ExpectedSize(cs *c03Case, evs []c03Ev) (int64, bool) {
 		ended  bool
 		failed bool
 	}
-	flights := map[string]*fl{}
-	callKey := map[int]string{}
+	roots := c03Roots(evs)
+	flights := map[int]*fl{}
+	rootItems := map[int][]int{}
 	for _, e := range evs {
 		switch e.kind {
 		case "ss":
@@ -66,18 +65,20 @@ func c19ExpectedSize(cs *c03Case, evs []c03Ev) (int64, bool) {
 			returned[e.id] = true
 			rejected[e.id] = true
 		case "es":
-			k := key(e.ids)
-			callKey[e.id] = k
-			flights[k] = &fl{last: e.id}
+			r := roots[e.id]
+			if flights[r] == nil {
+				rootItems[r] = e.ids
+			}
+			flights[r] = &fl{last: e.id}
 		case "ee":
-			if f := flights[callKey[e.id]]; f != nil && f.last == e.id {
+			if f := flights[roots[e.id]]; f != nil && f.last == e.id {
 				f.ended = true
 				f.failed = e.failed
 			}
 		}
 	}
 	done := map[int]bool{}
-	for k, f := range flights {
+	for r, f := range flights {
 		if !f.ended {
 			continue
 		}
@@ -89,11 +90,7 @@ func c19ExpectedSize(cs *c03Case, evs []c03Ev) (int64, bool) {
 				return 0, false // back-off or retries exhausted: cannot be told from outside
 			}
 		}
-		for _, s := range strings.Split(k, ",") {
-			var x int
-			for _, ch := range s {
-				x = x*10 + int(ch-'0')
-			}
+		for _, x := range rootItems[r] {
 			done[x] = true
 		}
 	}
@@ -162,9 +159,11 @@ func TestVerifC19Exporter(t *testing.T) {
 			tel := componenttest.NewTelemetry()
 			set := exportertest.NewNopSettings(exportertest.NopType)
 			set.TelemetrySettings = tel.NewTelemetrySettings()
-			gauge := ""
 			direct := !cs.cfg.queue && cs.cfg.batch == 0 // no queue: no gauges, no enqueue-failed counter
+			nGauge, nComparable := 0, 0
 			run := c03Exec(cs, set, func(run *c03Run) {
+				// called at quiescent points: before some of the sends (requests queued, batched, in flight, in back-off) and just
+				// before Shutdown is requested.  (After Shutdown the gauges are gone: obsQueue.Shutdown unregisters the callbacks.)
 				if direct {
 					return
 				}
@@ -172,7 +171,7 @@ func TestVerifC19Exporter(t *testing.T) {
 				size, ok1 := c19Metric(tel, "otelcol_exporter_queue_size")
 				capv, ok2 := c19Metric(tel, "otelcol_exporter_queue_capacity")
 				if !ok1 || !ok2 {
-					gauge = "tr gauge missing"
+					run.log(c03Ev{kind: "gauge", s: "missing"})
 					return
 				}
 				run.mu.Lock()
@@ -183,10 +182,12 @@ func TestVerifC19Exporter(t *testing.T) {
 					expCap = math.MaxInt
 				}
 				es := "?"
+				nGauge++
 				if known {
 					es = c03Join([]int{int(exp)})
+					nComparable++
 				}
-				gauge = "tr gauge size=" + c03Join([]int{int(size)}) + " cap=" + c03D(time.Duration(capv)) + " expsize=" + es + " expcap=" + c03D(time.Duration(expCap))
+				run.log(c03Ev{kind: "gauge", s: "size=" + c03Join([]int{int(size)}) + " cap=" + c03D(time.Duration(capv)) + " expsize=" + es + " expcap=" + c03D(time.Duration(expCap))})
 			})
 			c03EmitOps(out, c, cs)
 			if run.buildErr != nil {
@@ -197,9 +198,6 @@ func TestVerifC19Exporter(t *testing.T) {
 				continue
 			}
 			c03EmitTrace(out, cs, run)
-			if gauge != "" {
-				out.Linef("%s", gauge)
-			}
 			unit := []string{"log_records", "spans", "metric_points"}[cs.cfg.signal]
 			sent, _ := c19Metric(tel, "otelcol_exporter_sent_"+unit)
 			failed, _ := c19Metric(tel, "otelcol_exporter_send_failed_"+unit)
@@ -225,10 +223,13 @@ func TestVerifC19Exporter(t *testing.T) {
 			out.Linef("stat accepted %d", v.nAcc)
 			out.Linef("stat refused %d", v.nRej)
 			out.Linef("stat signal_%s 1", c03SigName[cs.cfg.signal])
-			if strings.Contains(gauge, "expsize=?") {
-				out.Linef("stat gauge_size_not_comparable 1")
-			} else if gauge != "" {
-				out.Linef("stat gauge_size_compared 1")
+			out.Linef("stat gauge_reads %d", nGauge)
+			out.Linef("stat gauge_size_compared %d", nComparable)
+			out.Linef("stat gauge_size_not_comparable %d", nGauge-nComparable)
+			if (cs.cfg.batch == 0 || cs.cfg.wrap) && !direct && v.returned {
+				out.Linef("stat lts_replayable 1")
+			} else {
+				out.Linef("stat lts_not_replayable 1")
 			}
 			out.Linef("end")
 			out.Flush()
